@@ -200,6 +200,11 @@ Record bcase := {
   bc_script_keys : list bytes; (* key leaves of the native scripts the scenario runs *)
   bc_fake_wit : Z;             (* placeholder witnesses in the last fake transaction *)
   bc_omitted : Z;              (* script bytes in the fake witness set that the final witness set omits *)
+  bc_shrunk : Z;               (* bytes by which build() shortens the outputs it ships against the outputs it estimated with:
+                                  it ships deepcopy(outputs), and PlutusData.__deepcopy__ is a CBOR round trip that turns an
+                                  IndefiniteList held by a List field of a typed inline datum into a plain list — 9f..ff
+                                  becomes 8n (one byte less below 24 elements), 98 nn (the same), 99 nnnn (one more from 256
+                                  elements); scenario data: the sum over those lists *)
   bc_has_change : bool;        (* a change address was given: two passes *)
   bc_calls : list estcall;     (* all _estimate_fee calls of the builder, in order *)
   bc_tx : bytes                (* the signed transaction *)
@@ -271,7 +276,7 @@ Definition build_corr (c : bcase) : bool :=
       && (tv_nwit v =? needed_wit c v)
       && (tv_fee v =? ec_result p2)
       && (tv_size v =? ec_size p2 - widthZ (ec_placeholder p2) + widthZ (tv_fee v)
-                       - Zsumw (ec_coins p2) + Zsumw (tv_coins v) - bc_omitted c)
+                       - Zsumw (ec_coins p2) + Zsumw (tv_coins v) - bc_omitted c - bc_shrunk c)
       && match ndiff (ec_coins p2) (tv_coins v) with Some n => (n <=? 1)%nat | None => false end
       && match p1 with
          | Some q1 =>
@@ -296,7 +301,7 @@ Definition FEW_DOZEN : Z := 24.
    asks for (premise "signed with the keys it requires"; build_corr reports a run where it does not hold),
    ledger minimum for the FINAL bytes, the execution units in the final redeemers and the reference-script bytes of
    ALL outputs the final body spends or references (looked up here, every output once, equal scripts on different
-   outputs each time)  <=  body fee  <=  minimum + a*(24 + omitted) + 2 + buffer *)
+   outputs each time)  <=  body fee  <=  minimum + a*(24 + omitted + max 0 shrunk) + 2 + buffer *)
 Definition build_oracle (c : bcase) : bool :=
   match read_tx (bc_tx c) with
   | Some v =>
@@ -304,6 +309,6 @@ Definition build_oracle (c : bcase) : bool :=
       (negb (tv_nwit v =? needed_wit c v) ||
        let lo := ledger_min_fee (bc_lp c) (bc_has_ref c) (tv_size v) (tv_steps v) (tv_mem v) (ref_ledger c v) in
        (lo <=? tv_fee v)
-       && (tv_fee v <=? lo + Ledger.la (bc_lp c) * (FEW_DOZEN + bc_omitted c) + 2 + bc_buffer c))
+       && (tv_fee v <=? lo + Ledger.la (bc_lp c) * (FEW_DOZEN + bc_omitted c + Z.max 0 (bc_shrunk c)) + 2 + bc_buffer c))
   | None => false
   end.
